@@ -42,7 +42,9 @@ class FsMonitor:
     def __init__(self, root, plan=None):
         self.root = os.path.realpath(root)
         self.plan = plan
-        self.effects = []          # ("open", path, mode) ("write", path, nbytes) ("close", path) ("replace", src, dst)
+        self.effects = []          # ("open", path, mode) ("write", path, nbytes) ("flush", path) ("close", path) ("replace", src, dst)
+        self.open_files = []
+        self.unflushed_before = []  # dry run: buffered bytes just before effect i
         self._orig = {}
 
     def _mine(self, path):
@@ -54,33 +56,55 @@ class FsMonitor:
     def _hit(self):
         return self.plan is not None and len(self.effects) == self.plan[0]
 
+    def unflushed(self):
+        return sum(len(f.buffered) for f in self.open_files)
+
+    def crash_if_planned(self, where):
+        """Crash before the next effect if the plan says so; plan[1] bytes of the buffered data have reached the OS."""
+        self.unflushed_before.append(self.unflushed()) if self.plan is None else None
+        if self._hit():
+            n = self.plan[1]
+            for f in self.open_files:
+                take = min(n, len(f.buffered))
+                f.f.write(f.buffered[:take])
+                n -= take
+                f.f.close()
+            raise Crash(f"{where}; {self.plan[1]} buffered byte(s) had reached the OS")
+
     def __enter__(self):
         mon = self
         self._orig = {"open": builtins.open, "io_open": io.open, "replace": os.replace, "rename": os.rename}
         real_open = builtins.open
 
         class CrashFile:
+            """Bytes written are *buffered* (as Python's file objects do) until flush()/close(); at a crash any prefix of the
+            buffered bytes may already have reached the OS (a buffer can spill at any size), the rest is lost."""
+
             def __init__(self, path, mode, kw):
                 self.path, self.mode = path, mode
                 self.enc = kw.get("encoding") or "utf-8"
                 self.binary = "b" in mode
-                if mon._hit():
-                    raise Crash("before open")
+                mon.crash_if_planned("before open")
                 self.f = real_open(path, mode.replace("t", "") + ("" if "b" in mode else "b"), buffering=0)
+                self.buffered = b""
+                mon.open_files.append(self)
                 mon.effects.append(("open", os.path.basename(path), mode))
 
             def write(self, s):
                 data = s if self.binary else s.encode(self.enc)
-                if mon._hit():
-                    self.f.write(data[:mon.plan[1]])
-                    self.f.close()
-                    raise Crash(f"in write after {mon.plan[1]} of {len(data)} bytes")
-                self.f.write(data)
+                mon.crash_if_planned("before write")
+                self.buffered += data
                 mon.effects.append(("write", os.path.basename(self.path), len(data)))
                 return len(s)
 
+            def _spill(self):
+                self.f.write(self.buffered)
+                self.buffered = b""
+
             def flush(self):
-                pass
+                mon.crash_if_planned("before flush")
+                self._spill()
+                mon.effects.append(("flush", os.path.basename(self.path)))
 
             def fileno(self):
                 return self.f.fileno()
@@ -88,10 +112,10 @@ class FsMonitor:
             def close(self):
                 if self.f.closed:
                     return
-                if mon._hit():
-                    self.f.close()
-                    raise Crash("before close")
+                mon.crash_if_planned("before close")
+                self._spill()
                 self.f.close()
+                mon.open_files.remove(self)
                 mon.effects.append(("close", os.path.basename(self.path)))
 
             def __enter__(self):
@@ -116,8 +140,7 @@ class FsMonitor:
 
             def fn(src, dst, *a, **kw):
                 if mon._mine(dst) or mon._mine(src):
-                    if mon._hit():
-                        raise Crash(f"before {kind}")
+                    mon.crash_if_planned(f"before {kind}")
                     real(src, dst, *a, **kw)
                     mon.effects.append((kind, os.path.basename(os.fspath(src)), os.path.basename(os.fspath(dst))))
                     return None
@@ -222,18 +245,18 @@ def run_crash(case, R):
         with FsMonitor(d) as mon:
             save_set(path, new)
         effects = list(mon.effects)
+        if len(mon.unflushed_before) != len(effects):
+            raise HarnessError(f"effect bookkeeping: {len(mon.unflushed_before)} crash points for {len(effects)} effects")
         if not any(e[0] == "write" for e in effects):
             raise HarnessError(f"no write effect observed in {effects}")
         got = load_set(path)
         if got != norm_set(new):
             R.fail("C20.pairings-roundtrip", f"after an uninterrupted save: loaded {got!r:.300} expected {norm_set(new)!r:.300}")
             return
+        # crash before effect i, with every possible number of buffered bytes already spilled to the OS
         points = []
-        for i, e in enumerate(effects):
-            if e[0] == "write":
-                points += [(i, n) for n in range(0, e[2] + 1)]
-            else:
-                points.append((i, 0))
+        for i in range(len(effects)):
+            points += [(i, n) for n in range(0, mon.unflushed_before[i] + 1)]
         points.append((len(effects), 0))       # crash after the last effect (= completed save)
         R.nt(True)
         R.cls(f"effects={len(effects)}", "old-exists" if base is not None else "first-save")
@@ -246,7 +269,7 @@ def run_crash(case, R):
                     save_set(path, new)
             except Crash:
                 pass
-            what = f"crash at effect {i} {effects[i] if i < len(effects) else 'end'} prefix {n}; effects of a save: {effects}"
+            what = f"crash before effect {i} {effects[i] if i < len(effects) else '(end)'} with {n} buffered byte(s) on disk; effects of a save: {effects}"
             try:
                 got = load_set(path)
             except Exception as e:  # noqa: BLE001
@@ -321,6 +344,24 @@ def run_cache(case, R):
         async def go():
             p1 = IpPairing(_Ctl(CharacteristicCacheFile(loc)), dict(PD))
             p1.restore_accessories_state(json.loads(json.dumps(emap)), case.get("config_num", 1), bk, case.get("state_num"))
+            # later write-throughs in the same process: only some of (config number, state number, broadcast key, a value) change
+            cn, sn, key = case.get("config_num", 1), case.get("state_num"), bk
+            for u in case.get("updates", []):
+                m2 = json.loads(json.dumps(emap))
+                if u.get("cn"):
+                    cn += u["cn"]
+                if "sn" in u:
+                    sn = u["sn"]
+                if "key" in u:
+                    key = bytes(u["key"]) if u["key"] is not None else None
+                if u.get("value") is not None:
+                    for a_ in m2:
+                        for s_ in a_["services"]:
+                            for c_ in s_["characteristics"]:
+                                if "pr" in c_["perms"] and c_.get("format") in ("uint8", "uint16", "uint32", "uint64", "int"):
+                                    c_["value"] = u["value"]
+                    emap[:] = m2
+                p1.restore_accessories_state(m2, cn, key, sn)
             before = (model_view(p1.accessories), p1.config_num, p1.state_num, p1.broadcast_key)
             # restart
             p2 = IpPairing(_Ctl(CharacteristicCacheFile(loc)), dict(PD))
@@ -482,13 +523,16 @@ def entity_maps(draw):
 
 @st.composite
 def cache_cases(draw):
+    ups = draw(st.lists(st.fixed_dictionaries({}, optional={"cn": st.integers(0, 2), "sn": st.one_of(st.none(), st.integers(0, 65535)),
+                                                            "key": st.one_of(st.none(), st.binary(min_size=32, max_size=32)), "value": st.integers(0, 200)}), max_size=3))
     return {"map": draw(entity_maps()), "config_num": draw(st.integers(0, 70000)), "state_num": draw(st.one_of(st.none(), st.integers(0, 65535))),
-            "broadcast_key": draw(st.one_of(st.none(), st.binary(min_size=32, max_size=32)))}
+            "broadcast_key": draw(st.one_of(st.none(), st.binary(min_size=32, max_size=32))), "updates": ups}
 
 
 def enum_fixtures(tier):
     for f in sorted(glob.glob(os.path.join(REPO, "tests", "fixtures", "*.json"))):
         yield {"fixture": os.path.basename(f), "config_num": 7, "state_num": 3, "broadcast_key": bytes(range(32))}
+        yield {"fixture": os.path.basename(f), "config_num": 7, "state_num": 3, "broadcast_key": None, "updates": [{"sn": 42}, {"key": bytes(range(1, 33))}]}
 
 
 def enum_crash(tier):
@@ -529,7 +573,7 @@ SPEC = Property(
         Layer("cache-roundtrip", run_cache, strategy=cache_cases, n={"quick": 800, "thorough": 20000}, min_nontrivial=50),
         Layer("cache-corrupt", run_corrupt_cache, strategy=corrupt_cases, n={"quick": 48, "thorough": 800}, min_nontrivial=10),
     ],
-    assumptions=["process crash with a surviving OS: the file holds exactly what was handed to the OS; rename is atomic; no reordering after power loss",
+    assumptions=["process crash with a surviving OS; written bytes sit in the file object's buffer until flush/close and any prefix of them may have reached the OS at the crash; rename is atomic; no reordering after power loss",
                  "the first save has nothing to preserve: 'old' is then the empty set",
                  "cache corruption domain: files that a reference JSON parser rejects"],
     min_nontrivial=300,
